@@ -276,6 +276,7 @@ def userff_runs(ctx, thorough):
             udat.write_text("\n".join(ln for ln in dat_txt.splitlines() if not (ln.split() and ln.split()[0] in K)) + "\n")
             try:  # a .names rule may legitimately re-create a removed name from another residue: then it is not "missing"
                 ffu = pff.Forcefield(base, load_definition(), str(udat), str(names_file))
+                ffb = pff.Forcefield(base, load_definition(), None, None)
                 K = {k for k in K if ffu.get_residue(k) is None}
             except Exception as e:  # noqa
                 ctx.count(f"userff-run:user-ff-rejected-{type(e).__name__}")
@@ -305,6 +306,11 @@ def userff_runs(ctx, thorough):
                         a, v = sorted(bad.items())[0]
                         ctx.fail({"site": "Biomolecule.apply_force_field", "condition": "parameters-for-a-residue-the-user-force-field-lacks", "ff": "user:" + base}, f"{label} with {base} minus {sorted(K)}: residue in state {l0} has no entry in the user force field, but {len(bad)} of its atoms were written with parameters, e.g. {a} -> {v} (looked up as {l1})", dict(casedict, residue=l0, atom=a, got=list(v)))
                 else:
+                    # a .names rule may DERIVE l0 from a removed residue (PARSE builds NHID from HID): such a residue
+                    # legitimately changes with the removal; only residues whose own entries are untouched are judged
+                    if any(ffu.get_params(l0, a) != ffb.get_params(l0, a) for a in by1):
+                        ctx.count("userff-run:residue-derived-from-removed-name")
+                        continue
                     ctx.evaluated(f"userff:{base}:{l0}:kept", False)
                     diff = {a: (by0.get(a), v) for a, v in by1.items() if by0.get(a) != v}
                     if diff:
